@@ -321,3 +321,87 @@ class SplineJacobian(Contract):
             r.shape, lambda p, t: close(r.at(p, t), kernel(e.at(p) - fe.at(t), n.at(p) - fn.at(t), a.self.mindist), 100.0)
         )
         return out
+
+
+# ------------------------------------------------------------------ large predictions (BOUNDED; sizes the symbolic stage cannot distinguish)
+
+
+def large_prediction(kind, n_queries, n_forces, seed):
+    """Real Spline / VectorSpline2D with hand-set forces predicting at MANY points (queries x forces up to a few 1e7): an
+    implementation that works through the forces or the points in blocks has its block boundaries somewhere in there.
+    Returns (prediction components, query coordinates, force coordinates, forces, mindist, poisson)."""
+    import verde
+
+    rng = np.random.RandomState(seed)
+    fe, fn = rng.uniform(-50, 50, n_forces), rng.uniform(-50, 50, n_forces)
+    qe, qn = rng.uniform(-60, 60, n_queries), rng.uniform(-60, 60, n_queries)
+    mindist, poisson = 0.5, 0.3
+    if kind == "spline":
+        est = verde.Spline(mindist=mindist)
+        est.force_coords_ = (fe, fn)
+        est.force_ = rng.uniform(-1, 1, n_forces)
+        est.region_ = (-50.0, 50.0, -50.0, 50.0)
+        pred = (est.predict((qe, qn)),)
+    else:
+        est = verde.VectorSpline2D(mindist=mindist, poisson=poisson, force_coords=(fe, fn))
+        est.force_ = rng.uniform(-1, 1, 2 * n_forces)
+        est.region_ = (-50.0, 50.0, -50.0, 50.0)
+        pred = tuple(est.predict((qe, qn)))
+    return pred, (qe, qn), (fe, fn), est.force_, mindist, poisson
+
+
+@register
+class LargePrediction(Contract):
+    """Run-time contract (BOUNDED): every force contributes to every prediction point, whatever the sizes."""
+
+    target = "contracts.spline_c03:large_prediction"
+    cover_return = False
+    layout_variants = False
+    history_variants = False
+    dtype_variants = False
+
+    def configs(self, tier):
+        return []
+
+    def samples(self, rng, nrng, tier):
+        yield ("spline", 45000, 320, rng.randint(0, 999)), {}
+        yield ("spline", 200 * 250, 300, rng.randint(0, 999)), {}
+        yield ("vector", 30000, 170, rng.randint(0, 999)), {}
+        if tier == "thorough":
+            yield ("spline", 1000, 12000, rng.randint(0, 999)), {}
+            yield ("spline", 2**20, 33, rng.randint(0, 999)), {}
+
+    def ensures(self, a, r):
+        pred, (qe, qn), (fe, fn), force, mindist, poisson = r
+        pred = [np.asarray(getattr(p, "np_ref", None) if getattr(p, "np_ref", None) is not None else _unwrap(p), dtype=float) for p in pred]
+        qe, qn, fe, fn, force = (np.asarray(_unwrap(x), dtype=float) for x in (qe, qn, fe, fn, force))
+        # the LAST and a few random forces switched off one at a time must each change the prediction by exactly their
+        # own term (linearity in the forces: pred = sum_j f_j * g_j) - checked on a sub-sample of the queries against
+        # the closed formula, force by force (no blocks, no vectorised sum over forces)
+        idx = np.unique(np.concatenate([np.arange(0, qe.size, max(qe.size // 97, 1)), [qe.size - 1]]))
+        want = [np.zeros(idx.size) for _ in pred]
+        nf = fe.size
+        for j in range(nf):
+            de, dn = qe[idx] - fe[j], qn[idx] - fn[j]
+            if len(pred) == 1:
+                d = np.sqrt(de**2 + dn**2) + mindist
+                want[0] += force[j] * d**2 * (np.log(d) - 1)
+            else:
+                d = np.sqrt(de**2 + dn**2) + mindist
+                lg = np.log(d)
+                gee = (3 - poisson) * lg + (1 + poisson) * dn**2 / d**2
+                gnn = (3 - poisson) * lg + (1 + poisson) * de**2 / d**2
+                gne = -(1 + poisson) * de * dn / d**2
+                want[0] += gee * force[j] + gne * force[nf + j]
+                want[1] += gne * force[j] + gnn * force[nf + j]
+        out = {}
+        for k, (p, w) in enumerate(zip(pred, want)):
+            scale = float(np.abs(w).max()) + 1.0
+            out["component%d_is_the_sum_over_ALL_forces_at_every_sampled_point" % k] = bool(p.shape == qe.shape and np.allclose(p[idx], w, rtol=0, atol=1e-8 * scale * nf))
+        return out
+
+
+def _unwrap(x):
+    from pyvc.concrete import unwrap
+
+    return unwrap(x)
